@@ -1,10 +1,12 @@
 pub mod c01;
+pub mod c10;
 
 use crate::engine::Engine;
 
 pub fn dispatch(id: &str) -> Option<fn(&mut Engine)> {
     match id {
         "C01" => Some(c01::run),
+        "C10" => Some(c10::run),
         _ => None,
     }
 }
